@@ -71,8 +71,8 @@ LeafStmt(lf, d) == IF lf.k = "enterraise" THEN With(Cm(d, TRUE, "none", FALSE), 
 (* hold the hole.                                                                                        *)
 Contexts == { "forbody", "forelse", "foriter", "whilebody", "whileelse", "ifthen",
               "tfbody", "tffin", "tffinexc", "tffinret",
-              "tebody1", "tebody2", "tebody3", "tehandler", "tehandleras", "tehandlerre", "teelse",
-              "tefbody", "tefhandler", "teffin",
+              "tebody1", "tebody2", "tebody3", "tehandler", "tehandleras", "tehandlerre", "tehandlerloop", "teelse",
+              "loophandlerre", "tefbody", "tefhandler", "teffin",
               "teefbody", "teefhandler", "teefelse", "teeffin",
               "withn", "withs", "witht", "withx", "call" }
 (* one representative per kind of enclosing block: the outermost context of the exhaustively enumerated *)
@@ -80,7 +80,7 @@ Contexts == { "forbody", "forelse", "foriter", "whilebody", "whileelse", "ifthen
 OuterRep == { "forbody", "whilebody", "forelse", "ifthen", "tfbody", "tffin", "tebody1", "tehandler", "teelse",
               "teefbody", "teefelse", "withn", "withs", "call" }
 (* contexts whose hole runs while an exception is being handled (bare raise is meaningful there) *)
-HandlingCtx == { "tehandler", "tehandleras", "tehandlerre", "tefhandler", "teefhandler", "tffinexc" }
+HandlingCtx == { "tehandler", "tehandleras", "tehandlerre", "tehandlerloop", "loophandlerre", "tefhandler", "teefhandler", "tffinexc" }
 
 Wrap(c, d, x) ==
   CASE c = "forbody"   -> For("range", B(d, x), << Mk(d, 3) >>)
@@ -109,6 +109,24 @@ Wrap(c, d, x) ==
     \* the exception re-raised is the one this handler caught
     [] c = "tehandlerre" -> Try(<< Mk(d, 1), RaiseS("KeyError") >>,
                                 << H(<<"KeyError">>, FALSE, << Mk(d, 7), x, Mk(d, 8), Simple("reraise") >>) >>, <<>>, <<>>)
+    \* inside the handler of KeyError: a loop whose body handles ValueError, hole in that INNER handler (left by
+    \* break / continue / return / raise / falling off); afterwards a bare raise must re-raise KeyError
+    [] c = "tehandlerloop" ->
+         Try(<< Mk(d, 1), RaiseS("KeyError") >>,
+             << H(<<"KeyError">>, FALSE,
+                  << Mk(d, 7),
+                     For("range", << Mk(d, 9),
+                                     Try(<< Mk(d, 10), RaiseS("ValueError") >>, << H(<<"ValueError">>, FALSE, << Mk(d, 11), x, Mk(d, 12) >>) >>, <<>>, <<>>),
+                                     Mk(d, 13) >>, << Mk(d, 14) >>),
+                     Mk(d, 8), Simple("reraise") >>) >>, <<>>, <<>>)
+    \* the same loop outside any handler (in a plain with block, to have statements after the loop): the bare
+    \* raise after it finds nothing being handled -> RuntimeError (or the exception of an enclosing handler)
+    [] c = "loophandlerre" ->
+         With(Cm(d, FALSE, "none", FALSE),
+              << For("range", << Mk(d, 1),
+                                 Try(<< Mk(d, 2), RaiseS("ValueError") >>, << H(<<"ValueError">>, FALSE, << Mk(d, 7), x, Mk(d, 8) >>) >>, <<>>, <<>>),
+                                 Mk(d, 3) >>, <<>>),
+                 Mk(d, 4), Simple("reraise") >>)
     [] c = "teelse"    -> Try(<< Mk(d, 1) >>, << H(<<"LookupError">>, FALSE, << Mk(d, 7) >>) >>, << Mk(d, 3), x, Mk(d, 4) >>, <<>>)
     [] c = "tefbody"   -> Try(B(d, x), << H(<<"ValueError">>, FALSE, << Mk(d, 7) >>) >>, <<>>, << Mk(d, 5) >>)
     [] c = "tefhandler" -> Try(<< Mk(d, 1), RaiseS("ValueError") >>, << H(<<"ValueError">>, FALSE, << Mk(d, 7), x, Mk(d, 8) >>) >>,
@@ -195,6 +213,14 @@ Where1(s, w) ==
 
 (* generated programs: bare raise only where an exception is being handled in the same function; *)
 (* programs that must be rejected only up to SynDepth (all of them are in the quick tier)         *)
+(* loophandlerre executes a bare raise that is in no handler of its own function: not generated inside a *)
+(* function called from a handler (see hx)                                                              *)
+RECURSIVE LastCall(_, _)
+LastCall(p, i) == IF i = 0 THEN 0 ELSE IF p[i] = "call" THEN i ELSE LastCall(p, i - 1)
+AdmitCtx(p, c) ==
+  c = "loophandlerre" => LET k == LastCall(p, Len(p)) IN
+                         \/ \E i \in (k + 1)..Len(p) : p[i] \in HandlingCtx
+                         \/ ~ \E i \in 1..k : p[i] \in HandlingCtx
 AdmitLeaf(p, lf) ==
   lf.k = "reraise" => \E i \in 1..Len(p) : p[i] \in HandlingCtx /\ \A j \in (i + 1)..Len(p) : p[j] # "call"
 LeafByName(n) == CHOOSE lf \in Leaves : LeafName(lf) = n
@@ -222,8 +248,9 @@ RECURSIVE FirstMatch(_, _, _)
 FirstMatch(hs, e, i) == IF i > Len(hs) THEN 0 ELSE IF Matches(hs[i], e) THEN i ELSE FirstMatch(hs, e, i + 1)
 DeclMatches(h, e) == h.cls = <<>> \/ \E k \in { h.cls[i] : i \in 1..Len(h.cls) } : IsSubDecl(e, k)
 
-(* the exception being handled at this point of the current function: innermost handler frame or *)
-(* finally body entered by an exception (3.4 sets exc_info for both), not looking past a call     *)
+(* DECLARATIVE reading of "the exception being handled" from the control stack (used only by the  *)
+(* invariant HandledStack; the machine uses the explicit stack hx): innermost handler frame or     *)
+(* finally body entered by an exception (3.4 sets exc_info for both), not looking past a call      *)
 RECURSIVE Handled(_, _)
 Handled(ks, i) == IF i = 0 THEN Norm
                   ELSE LET f == ks[i] IN
@@ -245,8 +272,18 @@ G0 == [nid |-> 0, open |-> {}, ran |-> {}, ncaught |-> 0, nsupp |-> 0, nover |->
 (* propagate a completion (handler search, finally entry and resumption, loop and call exit) do not *)
 (* change it.  why[i]: the label in force when log[i] was appended.  They name the rule behind an   *)
 (* expectation in finding keys; they do not influence the run.                                      *)
+(* hx: the stack of exceptions being handled.  Entering an except handler, or a finally clause by *)
+(* an exception, pushes; EVERY way out of that handler / clause (falling off its end, break,     *)
+(* continue, return, a new exception) pops, so the enclosing handler's exception is current      *)
+(* again.  A call pushes a barrier (Norm) that its return pops: generated programs never execute *)
+(* a bare raise in a callee while only a caller is handling something (reference manual "current *)
+(* scope" and CPython's thread-wide state differ there).  A bare raise re-raises the top of hx,   *)
+(* RuntimeError if there is none.  The invariant HandledStack ties hx to the control stack.       *)
 Run0(pg) == [ks |-> << [k |-> "call", ln |-> TopCall], SeqF(pg) >>, comp |-> Norm, log |-> <<>>, why |-> <<>>, lab |-> "start",
-             inp |-> <<>>, g |-> G0]
+             inp |-> <<>>, hx |-> <<>>, g |-> G0]
+HxTop(S) == IF S.hx = <<>> THEN Norm ELSE Top(S.hx)
+HxPush(S, c) == [S EXCEPT !.hx = Append(@, c)]
+HxPop(S) == [S EXCEPT !.hx = Pop(@)]
 Ev(S, n) == [S EXCEPT !.log = Append(@, n), !.why = Append(@, S.lab)]
 
 Rd(S, dom) == IF Len(S.inp) < MaxIn THEN dom ELSE {0}
@@ -273,7 +310,8 @@ WhileTest(S, base, f) ==
     ELSE [S1 EXCEPT !.ks = PushSeq(base, f.orelse), !.lab = "while:false"] : v \in Rd(S, {0, 1}) }
 
 EnterFin(S, base, f, c) ==
-  { [S EXCEPT !.ks = PushSeq(Append(base, [k |-> "fin", saved |-> c]), f.fin), !.comp = Norm, !.g = Cleanup(@, f.id)] }
+  { [S EXCEPT !.ks = PushSeq(Append(base, [k |-> "fin", saved |-> c]), f.fin), !.comp = Norm, !.g = Cleanup(@, f.id),
+              !.hx = IF c.t = "exc" THEN Append(@, c) ELSE @] }
 
 ExitWith(S, base, f, c) ==
   LET S1 == [Ev(S, f.cm.k + 10 + (IF c.t = "exc" THEN CodeOf(c.e) ELSE 0)) EXCEPT !.g = Cleanup(@, f.id)] IN
@@ -289,7 +327,7 @@ Exec(S, s, rest) ==
   CASE s.k = "mark" -> { [Ev(S, s.n) EXCEPT !.ks = rest] }
     [] s.k = "pass" -> { [S EXCEPT !.ks = rest] }
     [] s.k = "raise" -> { RaiseAt(S, rest, s.e, << {s.ln} >>, "raise", s.nx) }
-    [] s.k = "reraise" -> LET h == Handled(rest, Len(rest)) IN
+    [] s.k = "reraise" -> LET h == HxTop(S) IN
                           IF h.t = "exc" THEN { RaiseAt(S, rest, h.e, h.tb, "reraise", S.g.raises[h.id].nx) }
                           ELSE { RaiseAt(S, rest, "RuntimeError", << {s.ln} >>, "reraise-nothing", s.nx) }
     [] s.k \in {"ret", "brk", "cont"} -> { [S EXCEPT !.ks = rest, !.comp = Cmp(s.k), !.lab = s.k] }
@@ -309,7 +347,7 @@ Exec(S, s, rest) ==
                        IF s.cm.er THEN { RaiseAt(S1, rest, "IndexError", << {s.ln}, {EnterRaise} >>, "with-enter:raises", NoNext) }
                        ELSE { [S1 EXCEPT !.ks = PushSeq(Append(rest, [k |-> "with", cm |-> s.cm, ln |-> s.ln, last |-> s.last, id |-> id]), s.body),
                                          !.g = NewId(@, id)] }
-    [] s.k = "call" -> { [S EXCEPT !.ks = PushSeq(Append(rest, [k |-> "call", ln |-> s.cl]), s.body)] }
+    [] s.k = "call" -> { [S EXCEPT !.ks = PushSeq(Append(rest, [k |-> "call", ln |-> s.cl]), s.body), !.hx = Append(@, Norm)] }
 
 (* leading marks of a block are logged together with the step of the statement that follows them *)
 (* (fewer states; the log is the same)                                                            *)
@@ -327,10 +365,10 @@ NormalSteps(S, f, base) ==
     [] f.k = "while" -> WhileTest(S, base, f)
     [] f.k = "tryf" -> EnterFin(S, base, f, S.comp)
     [] f.k = "trye" -> { [S EXCEPT !.ks = PushSeq(base, f.orelse)] }
-    [] f.k = "hnd" -> { [S EXCEPT !.ks = base] }
-    [] f.k = "fin" -> { [S EXCEPT !.ks = base, !.comp = f.saved] }
+    [] f.k = "hnd" -> { HxPop([S EXCEPT !.ks = base]) }
+    [] f.k = "fin" -> { [S EXCEPT !.ks = base, !.comp = f.saved, !.hx = IF f.saved.t = "exc" THEN Pop(@) ELSE @] }
     [] f.k = "with" -> ExitWith(S, base, f, S.comp)
-    [] f.k = "call" -> { [S EXCEPT !.ks = base] }
+    [] f.k = "call" -> { [S EXCEPT !.ks = base, !.hx = IF base = <<>> THEN @ ELSE Pop(@)] }
 
 (* an abrupt completion c reaches the frame on top *)
 AbruptSteps(S, f, base, c) ==
@@ -343,18 +381,19 @@ AbruptSteps(S, f, base, c) ==
     [] f.k = "trye" ->
          LET i == IF c.t = "exc" THEN FirstMatch(f.hs, c.e, 1) ELSE 0 IN
          IF i > 0
-         THEN { [S EXCEPT !.ks = PushSeq(Append(base, [k |-> "hnd", exc |-> c]), f.hs[i].body), !.comp = Norm,
+         THEN { [S EXCEPT !.ks = PushSeq(Append(base, [k |-> "hnd", exc |-> c]), f.hs[i].body), !.comp = Norm, !.hx = Append(@, c),
                           !.g = [@ EXCEPT !.ncaught = @ + 1,
                                           !.bad = IF DeclMatches(f.hs[i], c.e) /\ \A j \in 1..(i - 1) : ~DeclMatches(f.hs[j], c.e)
                                                   THEN @ ELSE @ \cup {"handler entered without being the first match"}]] }
          ELSE { [S EXCEPT !.ks = base,
                           !.g.bad = IF c.t = "exc" /\ \E j \in 1..Len(f.hs) : DeclMatches(f.hs[j], c.e)
                                     THEN @ \cup {"matching handler passed over"} ELSE @] }
-    [] f.k = "hnd" -> { [S EXCEPT !.ks = base] }
-    [] f.k = "fin" -> { [S EXCEPT !.ks = base, !.g.nover = IF f.saved.t = "exc" THEN @ + 1 ELSE @] }
+    [] f.k = "hnd" -> { HxPop([S EXCEPT !.ks = base]) }     \* left by break / continue / return / a new exception
+    [] f.k = "fin" -> { [S EXCEPT !.ks = base, !.g.nover = IF f.saved.t = "exc" THEN @ + 1 ELSE @,
+                                  !.hx = IF f.saved.t = "exc" THEN Pop(@) ELSE @] }
     [] f.k = "with" -> ExitWith(S, base, f, c)
-    [] f.k = "call" /\ c.t = "ret" -> { [S EXCEPT !.ks = base, !.comp = IF base = <<>> THEN c ELSE Norm] }
-    [] f.k = "call" /\ c.t = "exc" -> { [S EXCEPT !.ks = base, !.comp = Exc(c.e, << {f.ln} >> \o c.tb, c.id)] }
+    [] f.k = "call" /\ c.t = "ret" -> { [S EXCEPT !.ks = base, !.comp = IF base = <<>> THEN c ELSE Norm, !.hx = IF base = <<>> THEN @ ELSE Pop(@)] }
+    [] f.k = "call" /\ c.t = "exc" -> { [S EXCEPT !.ks = base, !.comp = Exc(c.e, << {f.ln} >> \o c.tb, c.id), !.hx = IF base = <<>> THEN @ ELSE Pop(@)] }
     \* brk/cont reaching a call frame: no arm -- TLC reports an error (SyntaxErr must have excluded it)
 
 (* an abrupt completion discards the rest of every block it leaves: done within the same step *)
@@ -377,7 +416,7 @@ Init == /\ st = "gen" /\ path = <<>> /\ prog = <<>> /\ run = Run0(<<>>)
 
 GenCtx == /\ st = "gen" /\ Len(path) < Depth
           /\ Len(path) >= 2 => path[1] \in Outer3
-          /\ \E c \in Contexts : path' = Append(path, c)
+          /\ \E c \in Contexts : AdmitCtx(path, c) /\ path' = Append(path, c)
           /\ UNCHANGED << st, prog, run >>
 GenLeaf == /\ st = "gen" /\ Len(path) >= MinDepth
            /\ \E lf \in Leaves : AdmitLeaf(path, lf) /\ path' = Append(path, LeafName(lf))
@@ -429,6 +468,8 @@ NoneLost == Len(run.g.raises) = run.g.ncaught + run.g.nsupp + run.g.nover + InFl
 (* the raise, in the machine by accumulation while unwinding                                      *)
 EscapeIntact == (st = "done" /\ run.comp.t = "exc") =>
                   LET r == run.g.raises[run.comp.id] IN run.comp.e = r.e /\ run.comp.tb = r.tb
+(* the explicit handled-exception stack agrees, in every state, with what the control stack says *)
+HandledStack == st = "run" => HxTop(run) = Handled(run.ks, Len(run.ks))
 FinalOK == st = "done" => run.comp.t \in {"norm", "ret", "exc", "syntax"}
 (* what must be a SyntaxError never runs *)
 RejectedNeverRuns == (st = "run" /\ run.log = <<>>) => ~SyntaxErr(prog)   \* checked where a run starts
